@@ -49,9 +49,9 @@ META = {
   "technique": "Coq proof (logical relation for transparency, induction for bundle order, functional-table lemma for the router) over an executable model + differential correspondence (vm_compute) against a live server",
 }
 KNOWN = [
- {"property": "C17", "id": "F13d", "status": "fixed", "commit": "18fb86d",
+ {"property": "C17", "id": "F13d", "status": "fixed", "commit": "e782aef",
   "what": "ResponseWriterWrapper (LogResponse) did not implement http.Flusher: a handler that flushes when its writer can did so without the middleware and not behind it; 'Flush(); WriteHeader(404)' -> client got 200 without LogResponse, 404 with it",
-  "line": "fixed: property=C17 18fb86d LogResponse hid http.Flusher (flush; WriteHeader(c) gave a different status behind the middleware)",
+  "line": "fixed: property=C17 e782aef LogResponse hid http.Flusher (flush; WriteHeader(c) gave a different status behind the middleware)",
   "signature": "^response-writing-differs-behind-logresponse:1$"},
  {"property": "C17", "id": "F13a", "status": "fixed", "commit": "f753480",
   "what": "NewHttpsProvider never assigned its ServeMux to srvr.Handler: every route registered for the HTTPS listener answered 404 (GET /p1 registered, https GET /p1 -> 404, handler never ran)",
